@@ -528,9 +528,12 @@ class SizeEval:
         return Unknown(f"call {cs.name}")
 
     # -- functions / statements ------------------------------------------------------------------------
+    VISITED: set = set()       # qualified names of every function whose body a size evaluation went through (per process)
+
     def run(self, fi: FuncInfo, args: List[Any], kwargs: Dict[str, Any]) -> Any:
         if self.depth > 10:
             return Unknown("call depth")
+        SizeEval.VISITED.add(fi.qual)
         self.depth += 1
         saved_mult, saved_cond = self.mult, self.cond_depth
         self.mult, self.cond_depth = [], 0
